@@ -39,11 +39,14 @@ pub enum Kind {
     /// a chain of 1..10 filter-sets that ends in an unknown as-set: the evaluation resolves all of
     /// them and then fails
     FilterSetChainToUnknown(u8),
+    /// evaluable: a route-set whose *name* extends the text of another policy's expression
+    /// (`RS-P<i>-AS-NOSUCH<j>`): related names, unrelated objects
+    GoodNamedAfter(u16, u16, u8),
 }
 
 impl Kind {
     pub fn evaluable(&self) -> bool {
-        matches!(self, Kind::Good(..) | Kind::GoodViaFilterSet(..))
+        matches!(self, Kind::Good(..) | Kind::GoodViaFilterSet(..) | Kind::GoodNamedAfter(..))
     }
     fn label(&self) -> &'static str {
         match self {
@@ -58,6 +61,7 @@ impl Kind {
             Kind::GoodAndRegex(..) => "set-AND-as-path-regexp",
             Kind::GoodViaFilterSet(..) => "good-via-filter-set",
             Kind::FilterSetChainToUnknown(_) => "filter-set-chain-to-unknown-as-set",
+            Kind::GoodNamedAfter(..) => "good-named-after-another-policy",
         }
     }
 }
@@ -76,16 +80,37 @@ pub fn build(policies: &[Kind]) -> (Vec<Stmt>, Db, Vec<Option<Expr>>) {
     let goods: Vec<(u16, u16)> = policies
         .iter()
         .map(|k| match k {
-            Kind::Good(a, b) | Kind::GoodAndRegex(a, b) | Kind::GoodViaFilterSet(a, b) => (*a, *b),
+            Kind::Good(a, b) | Kind::GoodAndRegex(a, b) | Kind::GoodViaFilterSet(a, b) | Kind::GoodNamedAfter(a, b, _) => (*a, *b),
             _ => (0, 0),
         })
         .collect();
     let (mut stmts, mut db) = scenario(&goods);
     let mut exprs = Vec::new();
+    // the plain set name another policy's expression consists of, if it is one
+    let plain_name = |j: usize| -> Option<String> {
+        match policies.get(j)? {
+            Kind::UnknownAsSet => Some(format!("AS-NOSUCH{j}")),
+            Kind::IrrError(_) => Some(format!("AS-ERR{j}")),
+            Kind::UnknownRouteSet => Some(format!("RS-NOSUCH{j}")),
+            Kind::UnknownFilterSet => Some(format!("FLTR-NOSUCH{j}")),
+            Kind::PeerAs => Some("PeerAS".into()),
+            Kind::FilterSetChainToUnknown(_) => Some(format!("FLTR-C{j}-1")),
+            Kind::Good(..) => Some(format!("RS-P{j}")),
+            _ => None,
+        }
+    };
     for (i, k) in policies.iter().enumerate() {
-        let rs = format!("RS-P{i}");
+        let mut rs = format!("RS-P{i}");
+        if let Kind::GoodNamedAfter(_, _, j) = k {
+            let j = *j as usize % policies.len();
+            if let (true, Some(other)) = (j != i, plain_name(j)) {
+                let members = db.route_sets.remove(&rs).unwrap_or_default();
+                rs = if other.starts_with("RS-") { format!("{other}-P{i}") } else { format!("RS-P{i}-{other}") };
+                db.route_sets.insert(rs.to_ascii_uppercase(), members);
+            }
+        }
         let text = match k {
-            Kind::Good(..) => rs.clone(),
+            Kind::Good(..) | Kind::GoodNamedAfter(..) => rs.clone(),
             Kind::UnknownAsSet => format!("AS-NOSUCH{i}"),
             Kind::IrrError(other) => {
                 let n = format!("AS-ERR{i}");
@@ -176,6 +201,7 @@ fn kind_strategy() -> impl Strategy<Value = Kind> {
         1 => Just(Kind::Community),
         1 => (m(), m()).prop_map(|(a, b)| Kind::GoodAndRegex(a, b)),
         3 => (m(), m()).prop_map(|(a, b)| Kind::GoodViaFilterSet(a, b)),
+        3 => (m(), m(), 0u8..9).prop_map(|(a, b, j)| Kind::GoodNamedAfter(a, b, j)),
         2 => (1u8..11).prop_map(Kind::FilterSetChainToUnknown),
     ]
 }
@@ -189,7 +215,7 @@ impl Prop for C15 {
         }
     }
     fn rule(&self) -> String {
-        "2..9 managed policies (some evaluable only through a filter-set) of which at least one is valid RPSL but unevaluable (a chain of up to 10 filter-sets ending in an unknown as-set, unknown as-set, \
+        "2..9 managed policies (some evaluable only through a filter-set, some whose set name extends the text of another policy's expression) of which at least one is valid RPSL but unevaluable (a chain of up to 10 filter-sets ending in an unknown as-set, unknown as-set, \
          IRR error E/F to the set query, unknown route-set / filter-set, PeerAS, AS-path regular \
          expression, attribute match, set AND AS-path regexp) at generated positions, run through \
          the agent's real Updater::run with the real evaluator against fake IRRd and fake Junos. \
@@ -227,6 +253,14 @@ impl Prop for C15 {
                 out.push(Case { policies: v, installed_before: true });
             }
         }
+        // an evaluable policy whose set name extends the unevaluable policy's expression text
+        for b in [Kind::UnknownAsSet, Kind::IrrError(true), Kind::FilterSetChainToUnknown(2), Kind::PeerAs] {
+            for (bad_at, good_refers_to) in [(0usize, 0u8), (2, 2)] {
+                let mut v = vec![Kind::GoodNamedAfter(0b101, 0b11, good_refers_to), Kind::Good(0b10, 0)];
+                v.insert(bad_at, b.clone());
+                out.push(Case { policies: v, installed_before: false });
+            }
+        }
         out
     }
     fn strategy(&self, _tier: Tier) -> BoxedStrategy<Case> {
@@ -250,6 +284,15 @@ impl Prop for C15 {
         };
         let fake = Arc::new(Mutex::new(FakeJunos::new("bgpfu")));
         fake.lock().unwrap().running = stmts.clone();
+        if case.policies.iter().enumerate().any(|(i, k)| match k {
+            Kind::GoodNamedAfter(_, _, j) => {
+                let j = *j as usize % case.policies.len();
+                j != i && !case.policies[j].evaluable() && !matches!(case.policies[j], Kind::AsPathRegex | Kind::Community | Kind::GoodAndRegex(..))
+            }
+            _ => false,
+        }) {
+            obs.class("evaluable-set-name-extends-an-unevaluable-expression");
+        }
         if case.installed_before {
             obs.class("policies-installed-before-the-run");
             let mut cfg = Config::default();
